@@ -4,7 +4,8 @@ import vlib
 
 HARNESSES = ("objtree_h",)
 MLS = ("objtree",)
-THEOREMS = []
+THEOREMS = ["C20_order", "C20_register_occupied_noop", "C20_register_free_succeeds", "C20_children", "C20_tree_invariant",
+            "C20_refinement", "C20_error_partial", "C20_error_root_fallback", "C20_error_refuted"]
 
 # path elements whose strcmp order is easy to get wrong: prefixes of each other,
 # '0' < 'A' < 'Z' < '_' < 'a', siblings that sort adjacently
